@@ -433,6 +433,181 @@ theorem get_eq (i : Blocktimeindex_Index) (slot : UInt64) (hlen : i.values.lengt
           simp [this]
         simp [h1, h2, h3, hu, h3', hidx]
 
+/-! ### `marshalBinary` writes the format, and the decoder reads it back -/
+
+/-- the bytes of the value table -/
+def encValues : List Int → List UInt8
+  | [] => []
+  | t :: r => B.le 4 t.toNat ++ encValues r
+
+/-- block times the format can hold (uint32) -/
+def ValuesOk (vs : List Int) : Prop := ∀ t ∈ vs, 0 ≤ t ∧ t ≤ 4294967295
+
+theorem toLE_eq (v : UInt64) : uint64ToLEBytes v = .ok (B.le 8 v.toNat) := by
+  unfold uint64ToLEBytes
+  simp [make8, Go.putLeU64, leEncode_eq_le]
+
+theorem toBytes_eq (t : Int) (h0 : 0 ≤ t) (h1 : t ≤ 4294967295) : btToBytes t = .ok (B.le 4 t.toNat) := by
+  unfold btToBytes
+  have a : ¬ t < 0 := by omega
+  have b : ¬ t > 4294967295 := by omega
+  simp only [a, b, decide_false, Bool.false_eq_true, if_false, make4, bind_ok, Go.putLeU32, List.length_replicate, Nat.le_refl,
+    if_true, leEncode_eq_le, pure_eq_ok, List.drop_replicate, Nat.sub_self, List.replicate_zero, List.append_nil]
+  congr 2
+  unfold Go.u32OfInt
+  simp [UInt32.toNat_ofNat']
+  omega
+
+set_option maxRecDepth 4000 in
+theorem marshal_loop_eq (fuel0 : Nat) (i : Blocktimeindex_Index) (vs : List Int) (hv : ValuesOk vs) (hl : vs.length < 2 ^ 62) :
+    ∀ (fuel k : Nat) (w : List UInt8), k ≤ vs.length → vs.length - k < fuel →
+      btMarshal.loop1 fuel0 i vs fuel w (k : Int) = .ok (.done (w ++ encValues (vs.drop k), (vs.length : Int))) := by
+  intro fuel
+  induction fuel with
+  | zero => intro k w _ h; omega
+  | succ f ih =>
+    intro k w hk hf
+    rw [btMarshal.loop1]
+    by_cases hlt : k < vs.length
+    · have hlt' : (k : Int) < Go.len vs := by unfold Go.len; omega
+      simp only [hlt', decide_true, Bool.not_true, Bool.false_eq_true, if_false]
+      have hidx : Go.idx vs (k : Int) = .ok (vs.getD k 0) := by
+        unfold Go.idx
+        have : (0:Int) ≤ k ∧ (k:Int) < vs.length := by omega
+        simp [this]
+      have hgd : vs.getD k 0 = vs[k] := by
+        simp [List.getD_eq_getElem?_getD, List.getElem?_eq_getElem hlt]
+      have hmem : vs.getD k 0 ∈ vs := by
+        rw [hgd]; exact List.getElem_mem hlt
+      obtain ⟨h0, h1⟩ := hv _ hmem
+      simp only [hidx, bind_ok, toBytes_eq _ h0 h1]
+      have hw : Go.wrap64 ((k : Int) + 1) = ((k + 1 : Nat) : Int) := by rw [Go.wrap64_id] <;> omega
+      have hdrop : vs.drop k = vs.getD k 0 :: vs.drop (k + 1) := by
+        rw [hgd]; exact List.drop_eq_getElem_cons hlt
+      rw [hw, ih (k + 1) _ (by omega) (by omega), hdrop, encValues, List.append_assoc]
+    · have hke : k = vs.length := by omega
+      subst hke
+      have hlt' : ¬ ((vs.length : Nat) : Int) < Go.len vs := by unfold Go.len; omega
+      simp only [hlt', decide_false, Bool.not_false, if_true, pure_eq_ok, List.drop_length, encValues, List.append_nil]
+
+/-- **`marshalBinary` on the translated code**: magic ‖ start ‖ end ‖ epoch ‖ capacity ‖ one uint32 per value, for every
+    index whose block times fit the format (`fuel` > number of values) -/
+theorem marshal_eq (i : Blocktimeindex_Index) (hv : ValuesOk i.values) (hl : i.values.length < 2 ^ 62) (fuel : Nat)
+    (hf : i.values.length < fuel) :
+    btMarshal fuel i = .ok (magic ++ B.le 8 i.start.toNat ++ B.le 8 i.end_.toNat ++ B.le 8 i.epoch.toNat ++ B.le 8 i.capacity.toNat
+      ++ encValues i.values) := by
+  unfold btMarshal
+  simp only [toLE_eq, bind_ok, List.nil_append]
+  have h := marshal_loop_eq fuel i i.values hv hl fuel 0
+    (([98, 108, 111, 99, 107, 116, 105, 109, 101, 105, 110, 100, 101, 120] : List UInt8) ++ B.le 8 i.start.toNat ++ B.le 8 i.end_.toNat
+      ++ B.le 8 i.epoch.toNat ++ B.le 8 i.capacity.toNat) (by omega) (by omega)
+  simp only [Int.natCast_zero, List.drop_zero] at h
+  rw [h]
+  simp [magic]
+
+theorem values_encValues (vs : List Int) (hv : ValuesOk vs) (rest : List UInt8) :
+    values vs.length (encValues vs ++ rest) = vs := by
+  induction vs with
+  | nil => rfl
+  | cons t r ih =>
+    have ht := hv t (List.mem_cons_self ..)
+    have hr : ValuesOk r := fun x hx => hv x (List.mem_cons_of_mem _ hx)
+    simp only [List.length_cons, values, encValues, List.append_assoc]
+    have hlen : (B.le 4 t.toNat).length = 4 := B.le_length 4 _
+    rw [List.take_append_of_le_length (by omega), List.take_of_length_le (by omega), List.drop_append_of_le_length (by omega),
+      List.drop_of_length_le (by omega), List.nil_append, ih hr]
+    congr 1
+    rw [B.unle_le]
+    have : t.toNat % 256 ^ 4 = t.toNat := Nat.mod_eq_of_lt (by omega)
+    rw [this]
+    have : t.toNat % 4294967296 = t.toNat := Nat.mod_eq_of_lt (by omega)
+    rw [this]
+    omega
+
+theorem encValues_length (vs : List Int) : (encValues vs).length = 4 * vs.length := by
+  induction vs with
+  | nil => rfl
+  | cons t r ih => simp [encValues, B.le_length, ih]; omega
+
+theorem rd_at (pre x post : List UInt8) : rd (pre ++ x ++ post) pre.length x.length = some x := by
+  unfold rd
+  have : pre.length + x.length ≤ (pre ++ x ++ post).length := by simp
+  rw [if_pos this, List.append_assoc, List.drop_append_of_le_length (Nat.le_refl _), List.drop_length, List.nil_append,
+    List.take_append_of_le_length (Nat.le_refl _), List.take_length]
+
+theorem u64_le8 (v : UInt64) : u64 (B.le 8 v.toNat) = v := by
+  unfold u64
+  rw [B.unle_le_of_lt 8 v.toNat (by have := v.toNat_lt; omega)]
+  simp
+
+/-- what `marshalBinary` writes is accepted by `spec` and describes the index it was written from -/
+theorem spec_encoded (i : Blocktimeindex_Index) (hv : ValuesOk i.values) (hcap : i.values.length = i.capacity.toNat)
+    (he1 : i.start / 432000 = i.end_ / 432000) (he2 : i.start / 432000 = i.epoch) :
+    spec (magic ++ B.le 8 i.start.toNat ++ B.le 8 i.end_.toNat ++ B.le 8 i.epoch.toNat ++ B.le 8 i.capacity.toNat ++ encValues i.values)
+      = some i := by
+  have hm : magic.length = 14 := rfl
+  have l8 : ∀ v : Nat, (B.le 8 v).length = 8 := fun v => B.le_length 8 v
+  unfold spec
+  have r0 : rd (magic ++ B.le 8 i.start.toNat ++ B.le 8 i.end_.toNat ++ B.le 8 i.epoch.toNat ++ B.le 8 i.capacity.toNat ++ encValues i.values) 0 14
+      = some magic := by
+    have := rd_at [] magic (B.le 8 i.start.toNat ++ B.le 8 i.end_.toNat ++ B.le 8 i.epoch.toNat ++ B.le 8 i.capacity.toNat ++ encValues i.values)
+    simpa [hm, List.append_assoc] using this
+  have r1 : rd (magic ++ B.le 8 i.start.toNat ++ B.le 8 i.end_.toNat ++ B.le 8 i.epoch.toNat ++ B.le 8 i.capacity.toNat ++ encValues i.values) 14 8
+      = some (B.le 8 i.start.toNat) := by
+    have := rd_at magic (B.le 8 i.start.toNat) (B.le 8 i.end_.toNat ++ B.le 8 i.epoch.toNat ++ B.le 8 i.capacity.toNat ++ encValues i.values)
+    simpa [hm, l8, List.append_assoc] using this
+  have r2 : rd (magic ++ B.le 8 i.start.toNat ++ B.le 8 i.end_.toNat ++ B.le 8 i.epoch.toNat ++ B.le 8 i.capacity.toNat ++ encValues i.values) 22 8
+      = some (B.le 8 i.end_.toNat) := by
+    have := rd_at (magic ++ B.le 8 i.start.toNat) (B.le 8 i.end_.toNat) (B.le 8 i.epoch.toNat ++ B.le 8 i.capacity.toNat ++ encValues i.values)
+    simpa [hm, l8, List.append_assoc] using this
+  have r3 : rd (magic ++ B.le 8 i.start.toNat ++ B.le 8 i.end_.toNat ++ B.le 8 i.epoch.toNat ++ B.le 8 i.capacity.toNat ++ encValues i.values) 30 8
+      = some (B.le 8 i.epoch.toNat) := by
+    have := rd_at (magic ++ B.le 8 i.start.toNat ++ B.le 8 i.end_.toNat) (B.le 8 i.epoch.toNat) (B.le 8 i.capacity.toNat ++ encValues i.values)
+    simpa [hm, l8, List.append_assoc] using this
+  have r4 : rd (magic ++ B.le 8 i.start.toNat ++ B.le 8 i.end_.toNat ++ B.le 8 i.epoch.toNat ++ B.le 8 i.capacity.toNat ++ encValues i.values) 38 8
+      = some (B.le 8 i.capacity.toNat) := by
+    have := rd_at (magic ++ B.le 8 i.start.toNat ++ B.le 8 i.end_.toNat ++ B.le 8 i.epoch.toNat) (B.le 8 i.capacity.toNat) (encValues i.values)
+    simpa [hm, l8, List.append_assoc] using this
+  have hlen : (magic ++ B.le 8 i.start.toNat ++ B.le 8 i.end_.toNat ++ B.le 8 i.epoch.toNat ++ B.le 8 i.capacity.toNat ++ encValues i.values).length
+      = 46 + 4 * i.values.length := by
+    simp [hm, l8, encValues_length]; omega
+  have hdrop : (magic ++ B.le 8 i.start.toNat ++ B.le 8 i.end_.toNat ++ B.le 8 i.epoch.toNat ++ B.le 8 i.capacity.toNat ++ encValues i.values).drop 46
+      = encValues i.values := by
+    have h46 : (magic ++ B.le 8 i.start.toNat ++ B.le 8 i.end_.toNat ++ B.le 8 i.epoch.toNat ++ B.le 8 i.capacity.toNat).length = 46 := by
+      simp [hm, l8]
+    rw [List.drop_append_of_le_length (by omega), ← h46, List.drop_length, List.nil_append]
+  have he2' : i.end_ / 432000 = i.epoch := by rw [← he1]; exact he2
+  rw [r0]
+  simp only [Option.bind_eq_bind, Option.bind_some, ne_eq, not_true_eq_false, if_false]
+  rw [r1]; simp only [Option.bind_some]
+  rw [r2]; simp only [Option.bind_some]
+  rw [r3]; simp only [Option.bind_some, u64_le8]
+  rw [if_neg (by simp [he1]), if_neg (by simp [he2])]
+  rw [r4]; simp only [Option.bind_some, u64_le8, hlen, hdrop]
+  have hc : ¬ i.capacity.toNat > (46 + 4 * i.values.length - 46) / 4 := by
+    have : (46 + 4 * i.values.length - 46) / 4 = i.values.length := by omega
+    omega
+  rw [if_neg hc, ← hcap]
+  have hv' := values_encValues i.values hv []
+  rw [List.append_nil] at hv'
+  rw [hv']
+
+/-- **round trip on the translated code** (C01: the block time recorded for a slot is the one read back): what
+    `marshalBinary` writes for an index — value list as long as the capacity, start/end/epoch consistent, block times
+    within uint32 — `unmarshalBinary` decodes to that very index. -/
+theorem unmarshal_marshal (z i : Blocktimeindex_Index) (hv : ValuesOk i.values) (hcap : i.values.length = i.capacity.toNat)
+    (hl : i.values.length < 2 ^ 40) (he1 : i.start / 432000 = i.end_ / 432000) (he2 : i.start / 432000 = i.epoch)
+    (fuel : Nat) (hf : 46 + 4 * i.values.length < fuel) :
+    (btMarshal fuel i >>= btUnmarshal fuel z) = .ok i := by
+  rw [marshal_eq i hv (by omega) fuel (by omega), bind_ok]
+  have hm : magic.length = 14 := rfl
+  have hlen : (magic ++ B.le 8 i.start.toNat ++ B.le 8 i.end_.toNat ++ B.le 8 i.epoch.toNat ++ B.le 8 i.capacity.toNat ++ encValues i.values).length
+      = 46 + 4 * i.values.length := by
+    simp [hm, B.le_length, encValues_length]; omega
+  have h := unmarshal_eq_spec z _ (by rw [hlen]; omega) fuel (by rw [hlen]; exact hf)
+  rw [spec_encoded i hv hcap he1 he2] at h
+  exact h
+
 /-! ### non-vacuity: a concrete file, decoded by the translated code -/
 
 def sample : List UInt8 :=
